@@ -345,6 +345,7 @@ fn fresh_process_ops_phase(opts: &Opts) -> runner::ExtraPhase {
         for client in sc.clients.iter() {
             sample.extend(client.iter().filter(|o| matches!(o, checks::c18::Op::WithIdentityGenerator { .. })).take(2));
         }
+        sample.extend(near_twin_pairs(&sc));
         {
             for op in sample {
                 free::reset_run_state();
@@ -367,9 +368,63 @@ fn fresh_process_ops_phase(opts: &Opts) -> runner::ExtraPhase {
             }
         }
     }
+    // near-twin pairs (a batch and a copy with one bit of one point encoding changed, verified one after the
+    // other in this process): scan further scenarios until enough of them were compared
+    let want_pairs = if opts.tier == Tier::Quick { 10 } else { 80 };
+    let mut pairs = 0u64;
+    let mut idx = n_scen;
+    while pairs < want_pairs && idx < n_scen + 4000 {
+        let mut rng = simrng::SimRng::for_run(opts.seed, "C18", idx);
+        let sc = c.generate(&mut rng, opts.tier, idx);
+        idx += 1;
+        let ops = near_twin_pairs(&sc);
+        if ops.is_empty() {
+            continue;
+        }
+        pairs += (ops.len() / 2) as u64;
+        for op in ops {
+            free::reset_run_state();
+            let want = checks::c18::in_process_digest(&sc.group, op);
+            let got = fresh_digest(&sc.group, op);
+            ph.evaluations += 1;
+            distinct.insert(want.clone());
+            match got {
+                None => ph.error = Some("fresh process produced no digest".into()),
+                Some(g) if g != want => ph.found.push((
+                    runner::Violation::new(
+                        "result_differs_in_fresh_process",
+                        "fresh process near twin",
+                        format!("operation {:?}: {} in this process (next to a near twin of its proof) but {} as the first library call of a fresh process", format!("{:?}", op).chars().take(120).collect::<String>(), want, g),
+                    ),
+                    serde_json::json!({"single_op": op, "group": sc.group, "in_process_digest": want}),
+                )),
+                _ => {},
+            }
+        }
+    }
+    *ph.faults.entry("near_twin_pair_in_one_process".into()).or_insert(0) += pairs;
     *ph.faults.entry("fresh_process_baseline".into()).or_insert(0) += ph.evaluations;
     ph.distinct = distinct.len() as u64;
     ph
+}
+
+/// Consecutive operations of one client that verify a batch and a near twin of it (either order).
+fn near_twin_pairs(sc: &checks::c18::Scenario) -> Vec<&checks::c18::Op> {
+    use checks::c18::Op;
+    let mut v = Vec::new();
+    for client in sc.clients.iter() {
+        for w in client.windows(2) {
+            if let (Op::Verify { members: m1, corrupt: c1, corrupt_kind: k1, .. }, Op::Verify { members: m2, corrupt: c2, corrupt_kind: k2, .. }) = (&w[0], &w[1]) {
+                let twin = |c: &Option<usize>, k: u8| c.is_some() && k >= 3;
+                let same = serde_json::to_string(m1).ok() == serde_json::to_string(m2).ok();
+                if same && ((twin(c1, *k1) && c2.is_none()) || (c1.is_none() && twin(c2, *k2))) {
+                    v.push(&w[0]);
+                    v.push(&w[1]);
+                }
+            }
+        }
+    }
+    v
 }
 
 fn main() {
